@@ -216,3 +216,10 @@ func gcd(a, b int) int {
 	}
 	return a
 }
+
+// Unit draws a number in [-1,1] on a grid of 1e-6. rapid's own float generator
+// deliberately produces values such as 1e-155, whose squares underflow; data meant to be
+// "spread * z" must not collapse to that scale.
+func Unit(t *rapid.T, label string) float64 {
+	return math.Round(rapid.Float64Range(-1, 1).Draw(t, label)*1e6) / 1e6
+}
